@@ -214,8 +214,9 @@ impl Monitor for C06 {
                 fail(acc, "output_conservation", format!("sum(out) over steps = {total_out}, trader received {got}, vault paid {vout}"));
             }
         } else if in_user != out_user {
-            // the curve amount plus fee must have reached the vault (the trader pays the token program's fee on top)
-            if vin < total_in || paid < vin {
+            // exactly the curve amount plus fee reaches the vault (the trader pays the token program's fee on top: the
+            // program asks for the amount whose fee-reduced value is what the curve consumed, and re-verifies it)
+            if vin != total_in || paid < vin {
                 fail(acc, "input_conservation", format!("sum(in+fee) over steps = {total_in} but the vault received {vin} (trader paid {paid}) on a transfer-fee pool"));
             }
             if vout != total_out || got > vout {
